@@ -57,12 +57,26 @@ def split(rng, module):
                 if j != i: imps.add(j)
         for j in range(i):
             if rng.random() < .25: imps.add(j)          # extra imports: chains and diamonds
-        mods.append(("m%d" % i, seg, sorted(imps)))
+        mods.append((NM[i], seg, sorted(imps)))
     return mods
 
 
+# module names: half of the cases use names that differ only in a trailing letter of ".nslir" (util / utils, n, s, l, i, r ...)
+POOL = ["util", "utils", "shape", "shapes", "vec", "vecs", "n", "s", "l", "i", "r", "lib", "libs", "color", "colori", "ab", "abn"]
+NM = ["m%d" % k for k in range(64)]
+
+
+def choose_names(rng):
+    global NM
+    if rng.random() < .5:
+        NM = ["m%d" % k for k in range(64)]
+    else:
+        pool = POOL[:]; rng.shuffle(pool)
+        NM = pool + ["x%d" % k for k in range(64)]
+
+
 def module_text(rng, name, funcs, imps):
-    items = ['import "m%d";' % j for j in imps] + [f.src() for f in funcs]
+    items = ['import "%s";' % NM[j] for j in imps] + [f.src() for f in funcs]
     rng.shuffle(items)
     return "\n".join(items) + "\n"
 
@@ -92,6 +106,7 @@ def one_case(seed, opts):
     implrun.load()
     L = implrun.LinearIR
     rng = random.Random(seed)
+    choose_names(rng)
     g = gen_calls.CG(rng, dict(vectors=rng.random() < .5))
     for _ in range(20):
         whole = g.program()
@@ -102,7 +117,7 @@ def one_case(seed, opts):
     rec = dict(seed=seed, features=dict(g.feat), nmods=len(mods))
     texts = {name: module_text(rng, name, funcs, imps) for name, funcs, imps in mods}
     rec["texts"] = texts
-    rec["imports"] = {name: ["m%d" % j for j in imps] for name, funcs, imps in mods}
+    rec["imports"] = {name: [NM[j] for j in imps] for name, funcs, imps in mods}
     # shape of the import graph
     direct = set(mods[-1][2])
     reach = set(); todo = list(direct)
@@ -174,7 +189,7 @@ def one_case(seed, opts):
                                           loads=sorted(loader.loads)))
         # --- duplicate definition: a second module defining one of the program's functions must be rejected
         if opts.get("dup", False):
-            victim = rng.choice([fn for name, funcs, imps in mods if (name == root or int(name[1:]) in reach) for fn in funcs])
+            victim = rng.choice([fn for name, funcs, imps in mods if (name == root or NM.index(name) in reach) for fn in funcs])
             dup_src = victim.src().replace("export ", "")
             cd = implrun.compile_src(dup_src if not victim.exported else victim.src())
             if cd[0] == 'ok':
@@ -189,10 +204,10 @@ def one_case(seed, opts):
                     rec["dup"] = dict(status="rejected", error=type(e).__name__)
         # --- the model's view of the module graph
         rec["model_line"] = "link " + " ; ".join(
-            "%s : %s : %s" % (name, "!".join(fn.irname() for fn in funcs) or "-", ",".join("m%d" % j for j in imps) or "-") for name, funcs, imps in mods) + \
+            "%s : %s : %s" % (name, "!".join(fn.irname() for fn in funcs) or "-", ",".join(NM[j] for j in imps) or "-") for name, funcs, imps in mods) + \
             " ;; " + " ".join([root] + ["extra%d" % k for k in range(len(extras))])
-        rec["expected_funcs"] = sorted([fn.irname() for name, funcs, imps in mods if (name == root or int(name[1:]) in reach) for fn in funcs] + ["extra%d" % k for k in range(len(extras))])
-        rec["expected_loads"] = sorted("m%d" % j for j in reach)
+        rec["expected_funcs"] = sorted([fn.irname() for name, funcs, imps in mods if (name == root or NM.index(name) in reach) for fn in funcs] + ["extra%d" % k for k in range(len(extras))])
+        rec["expected_loads"] = sorted(NM[j] for j in reach)
     finally:
         os.chdir(old)
         shutil.rmtree(d, ignore_errors=True)
